@@ -24,12 +24,31 @@ def catalogue():
     return tab, CAT.KINDS
 
 
+def tla_str_seq(xs):
+    return "<<" + ", ".join('"%s"' % x for x in xs) + ">>"
+
+
+def write_data_module(path, tab):
+    rows = ["  [name |-> \"%s\", kinds |-> %s, pre |-> %s, set |-> %s, clr |-> %s, rejects |-> %s]"
+            % (o["name"], tla_str_seq(o["kinds"]), tla_str_seq(o["pre"]), tla_str_seq(o["set"]), tla_str_seq(o["clr"]), tla_str_seq(o["rejects"]))
+            for o in tab if o["kinds"]]
+    with open(path, "w") as f:
+        f.write("---------------------------- MODULE SlideOpsData ----------------------------\n"
+                "(* GENERATED from mbt/catalog/slideops.py by mbt/checks/c03.py - the operation catalogue as a TLA+ constant. *)\n"
+                "OpsData == <<\n" + ",\n".join(rows) + "\n>>\n"
+                "=============================================================================\n")
+
+
 def explore(work, name, kinds, depth, opsfile):
+    import shutil
+    tab, _ = catalogue()
+    write_data_module(os.path.join(work, "SlideOpsData.tla"), tab)
+    shutil.copy(os.path.join(E.SPEC, "MC_SlideOps.tla"), os.path.join(work, "MC_SlideOps.tla"))
     cfg = os.path.join(work, "MC_SlideOps_%s.cfg" % name)
     with open(cfg, "w") as f:
         f.write("SPECIFICATION Spec\nCONSTANTS KINDS = {%s}\n PREPS = {\"plain\", \"rich\"}\n DEPTH = %d\n Ops <- OpsFromFile\nINVARIANT Emit\nCHECK_DEADLOCK FALSE\n"
                 % (",".join('"%s"' % k for k in kinds), depth))
-    r = E.run_tlc("MC_SlideOps", cfg, work=work, workers=16, env={"OPS_FILE": opsfile}, timeout=2400, heap="12g")
+    r = E.run_tlc("MC_SlideOps", cfg, work=work, workers=16, timeout=3000, heap="12g", specdir=work, libs=[E.SPEC])
     return r.printed("SEQ"), r
 
 
@@ -49,7 +68,7 @@ def main() -> int:
         rp = json.load(open(replay))
         jobs = [(rp["id"], rp["kind"], rp["prep"], rp["ops"])]
     else:
-        cfgs = [("pairs", kinds, 2)] + ([("triples", kinds, 3)] if thorough else [])
+        cfgs = [("pairs", kinds, 2)] + ([("triples", ["textbox", "table", "chart_bar", "picture", "slide", "ph_insert"], 3)] if thorough else [])
         seen = set()
         for name, ks, depth in cfgs:
             seqs, r = explore(work, name, ks, depth, opsfile)
